@@ -20,17 +20,17 @@ def run(res, pool, tier, seed):
                                     SEED=sd, NSHARD=40, NSHARDP=10))]
     else:
         jobs = [dict(module="MC_Mem.tla", tag="s2", invariants=INVS, timeout=7200,
-                     constants=dict(GENK=set(), NGEN=1, S=2, BODIES=set(POLYH + POLYG), KC=set(KC), KX=set(KX), B=1, SEED=sd, NSHARD=40, NSHARDP=1)),
+                     constants=dict(GENK=set(), NGEN=1, S=2, BODIES=set(POLYH + POLYG), KC=set(KC), KX=set(KX), B=1, SEED=sd, NSHARD=90, NSHARDP=2)),
                 dict(module="MC_Mem.tla", tag="s2-dirs2", invariants=INVS, timeout=7200,
-                     constants=dict(GENK=set(), NGEN=1, S=2, BODIES=set(), KC=set(KC), KX=set(KX) - {"Polygon"}, B=2, SEED=sd, NSHARD=60, NSHARDP=1)),
+                     constants=dict(GENK=set(), NGEN=1, S=2, BODIES=set(), KC=set(KC), KX=set(KX) - {"Polygon"}, B=2, SEED=sd, NSHARD=150, NSHARDP=2)),
                 dict(module="MC_Mem.tla", tag="general-hulls", invariants=INVS, timeout=7200,
-                     constants=dict(GENK={4, 5, 6}, NGEN=4000, S=2, BODIES=set(), KC=set(), KX={"Point", "Segment"}, B=1, SEED=sd, NSHARD=30, NSHARDP=1)),
+                     constants=dict(GENK={4, 5, 6}, NGEN=4000, S=2, BODIES=set(), KC=set(), KX={"Point", "Segment"}, B=1, SEED=sd, NSHARD=60, NSHARDP=2)),
                 dict(module="MC_Mem.tla", tag="s8-near", invariants=INVS, timeout=7200,
-                     constants=dict(GENK=set(), NGEN=1, S=8, BODIES=set(POLYH + POLYG), KC=set(KC), KX={"Point"}, B=1, SEED=sd, NSHARD=30, NSHARDP=3))]
+                     constants=dict(GENK=set(), NGEN=1, S=8, BODIES=set(POLYH + POLYG), KC=set(KC), KX={"Point"}, B=1, SEED=sd, NSHARD=60, NSHARDP=4))]
     # containers with edges / faces of generic slope (unit normals and directions are irrational, feature positions non-dyadic)
     jobs.append(dict(module="MC_Mem.tla", tag="generic-slopes", invariants=INVS, timeout=3600,
                      constants=dict(GENK=set(), NGEN=1, S=2, BODIES={"gprismA", "gtriB"}, KC=set(), KX={"Point", "Segment"}, B=1, SEED=sd,
-                                    NSHARD=40 if tier == "quick" else 8, NSHARDP=4 if tier == "quick" else 1)))
+                                    NSHARD=40 if tier == "quick" else 12, NSHARDP=4 if tier == "quick" else 2)))
     engine.run_jobs(res, jobs, pool)
     import traces
     traces.run_for(res, ["driver"] if tier == "quick" else ["unit_tests", "driver"], {"C05"}, seed=seed + 3, nsessions=250 if tier == "quick" else 2500)
